@@ -442,16 +442,82 @@ Definition registry_ok (s : state) (ob : obs) : bool :=
       forallb (fun id => list_eqb N.eqb (stack_of_snap snap id) (expected_stack s (o_states ob) id)) ids
   end.
 
-Fixpoint monitor_steps (tr : list (sstate * obs)) (os : list obs) : bool :=
+(* -- the notices, on the frames each client was OBSERVED to receive --
+   What was registered BEFORE the step ([s0]: the entries, the sent_to sets, which are a
+   function of the script and are tied to the observations by [registry_ok] of the previous
+   step) against what is observed AFTER it: the registry snapshot (inside a register window,
+   where no snapshot can be taken, the registrations of the script filtered by the observed
+   task states), the observed task states and the observed frames. *)
+Definition obs_stack (s1 : state) (ob : obs) (id : N) : list N :=
+  match o_snap ob with
+  | Some snap => stack_of_snap snap id
+  | None => expected_stack s1 (o_states ob) id
+  end.
+Definition obs_running (ob : obs) (c : N) : bool := nth (N.to_nat c) (o_states ob) 2 =? 0.
+Definition news_for (ob : obs) (c : N) : list frame :=
+  match find (fun e => fst e =? c) (o_news ob) with Some (_, l) => l | None => [] end.
+Definition count_frame (f : frame) (l : list frame) : N := len (filter (frame_eqb f) l).
+Definition gone_ids (l : list frame) : list N :=
+  flat_map (fun f => match f with FGone x => [x] | _ => [] end) l.
+Definition is_nil {A} (l : list A) : bool := match l with [] => true | _ => false end.
+
+(* a peer-gone notice for X is received only in a step after which X has no entry *)
+Definition gone_only_after_last (s1 : state) (ob : obs) : bool :=
+  forallb (fun e => forallb (fun x => is_nil (obs_stack s1 ob x)) (gone_ids (snd e))) (o_news ob).
+
+(* when X's entry disappears in this step, the active connection of every endpoint X had
+   sent to receives exactly one peer-gone notice for X in this step (premise: it is
+   observed running, i.e. it reads its queue, and the queue has room: capacity >= 1 —
+   a running connection's queue is empty between operations) *)
+Definition gone_delivered (s0 s1 : state) (ob : obs) : bool :=
+  forallb (fun x =>
+    if negb (is_nil (reg s0 x)) && is_nil (obs_stack s1 ob x) then
+      forallb (fun p =>
+        match obs_stack s1 ob p with
+        | a :: _ =>
+            if obs_running ob a && (1 <=? cap s0)
+            then count_frame (FGone x) (news_for ob a) =? 1 else true
+        | [] => true
+        end) (sent s0 x)
+    else true) ids.
+
+(* a displaced connection is told another connection took over: when a connection c that was
+   not registered before is observed in front of the previously active connection a, then a —
+   if observed running, capacity >= 1 — received the took-over notice in this step *)
+Definition took_over_told (s0 s1 : state) (ob : obs) : bool :=
+  forallb (fun id =>
+    match reg s0 id, obs_stack s1 ob id with
+    | a :: _, c :: a' :: _ =>
+        if (a' =? a) && negb (existsb (N.eqb c) (reg s0 id)) && obs_running ob a && (1 <=? cap s0)
+        then existsb (frame_eqb (status_frame (ver (conns s0 a)) 1)) (news_for ob a) else true
+    | _, _ => true
+    end) ids.
+
+(* when the active connection c is gone and the most recently displaced one p is observed
+   active again, then p — if observed running, capacity >= 1 — received the healthy notice *)
+Definition healthy_told (s0 s1 : state) (ob : obs) : bool :=
+  forallb (fun id =>
+    match reg s0 id, obs_stack s1 ob id with
+    | c :: p :: _, p' :: _ =>
+        if (p' =? p) && negb (existsb (N.eqb c) (obs_stack s1 ob id)) && obs_running ob p && (1 <=? cap s0)
+        then existsb (frame_eqb (status_frame (ver (conns s0 p)) 0)) (news_for ob p) else true
+    | _, _ => true
+    end) ids.
+
+Definition step_ok (s0 s1 : state) (ob : obs) : bool :=
+  registry_ok s1 ob && gone_only_after_last s1 ob && gone_delivered s0 s1 ob &&
+  took_over_told s0 s1 ob && healthy_told s0 s1 ob.
+
+Fixpoint monitor_steps (ss0 : sstate) (tr : list (sstate * obs)) (os : list obs) : bool :=
   match tr, os with
   | [], [] => true
-  | (ss, _) :: tr', ob :: os' => registry_ok (st ss) ob && monitor_steps tr' os'
+  | (ss, _) :: tr', ob :: os' => step_ok (st ss0) (st ss) ob && monitor_steps ss tr' os'
   | _, _ => false
   end.
 
 Definition monitor (i : input) (o : output) : bool :=
   match o with
-  | Ok (os, _) => monitor_steps (trace i) os
+  | Ok (os, _) => monitor_steps (mkSS (init (fst i)) None None) (trace i) os
   | _ => true      (* a harness failure is reported through agree *)
   end.
 
